@@ -269,8 +269,8 @@ def MonthdayRange.filter (r : MonthdayRange) (d : Day) : M Bool :=
       match ← singleInterval s so e eo with
       | some iv => pure (iv.1 ≤ d && d ≤ iv.2)
       | none =>
-        let starts ← boundsOn s so true (yearsAround y 1 1)
-        let ends ← boundsOn e eo false (yearsAround y 1 1)
+        let starts ← boundsOn s so true (yearsAround y 2 2)
+        let ends ← boundsOn e eo false (yearsAround y 2 2)
         pure (isOpenFromIntervals d (intervalsFromBounds starts ends))
 
 def MonthdayRange.hint (r : MonthdayRange) (d : Day) : M (Option Day) :=
@@ -309,8 +309,8 @@ def MonthdayRange.hint (r : MonthdayRange) (d : Day) : M (Option Day) :=
       match ← singleInterval s so e eo with
       | some iv => pure (some (nextChangeFromIntervals d [iv]))
       | none =>
-        let starts ← boundsOn s so true (yearsAround y 1 10)
-        let ends ← boundsOn e eo false (yearsAround y 1 10)
+        let starts ← boundsOn s so true (yearsAround y 2 10)
+        let ends ← boundsOn e eo false (yearsAround y 2 10)
         pure (some (nextChangeFromIntervals d (intervalsFromBounds starts ends)))
 
 /-! ### weekday and holiday ranges -/
